@@ -1,8 +1,8 @@
 /-! Executable model of the one-dimensional column of `transport.cpp` / `advection.cpp` (property C11).
 
 * `initMix` — the **non-multicomponent** branch of `Phreeqc::init_mix` exactly as coded, over `Rat`:
-  dispersive factor `2/dav` with the harmonic term `dav` kept in a *local that is not reset between
-  cells* (DESIGN §6 item 7: a cell with zero dispersivity re-uses the previous value), diffusive factor
+  dispersive factor `2/dav` with the harmonic term `dav = L_i/α_i + L_j/α_j` over the cells with non-zero
+  dispersivity (the local is reset per pair since the `fix:` commit 02a99847; DESIGN §6 item 7), diffusive factor
   `2·D·Δt / (L_i² + L_i·L_j)`, `corr_disp`, the three boundary conditions (1 constant, 2 closed, 3 flux),
   the running maximum `maxmix`, `nmix = 1 + ⌊1.5·maxmix⌋` (at least 2 with flow and a constant boundary),
   the division of every factor by `nmix` and the triple `(m[i], 1 − m[i] − m1[i], m1[i])` stored in
@@ -57,10 +57,12 @@ def corrDisp (s : Setup) : Rat :=
 /-- `diffc_here = 2 * diffc_tr * timest` -/
 def diffcHere (s : Setup) : Rat := 2 * s.diffc * s.timest
 
-/-- the two `if (cell_data[..].disp) dav (+)= …` statements: `dav` keeps its old value when the
-cell's own dispersivity is zero (it is *not* reset) -/
-def davUpd (dav : Rat) (c nb : Cell) : Rat :=
-  let d := if c.disp ≠ 0 then c.len / c.disp else dav
+/-- `dav = 0.0; if (cell_data[i].disp) dav = L_i/α_i; if (cell_data[j].disp) dav += L_j/α_j;` — the local is
+reset at the start of each block (since /repo commit 02a99847; before it a zero-dispersivity cell re-used the value
+left by the previous pair, which made `m1[i] ≠ m[i+1]` and lost mass — the C11 finding `stale dav`). The incoming
+value of the local is therefore irrelevant; it is still threaded through the loop as in the code. -/
+def davUpd (_dav : Rat) (c nb : Cell) : Rat :=
+  let d := if c.disp ≠ 0 then c.len / c.disp else 0
   if nb.disp ≠ 0 then d + nb.len / nb.disp else d
 
 /-- `if (ishift != 0) { … if (dav) m = 2 / dav; }`: the dispersive part of a factor -/
@@ -86,7 +88,7 @@ def loBlock (s : Setup) (dav : Rat) (c : Cell) : Option Cell → Rat × Rat
 
 /-- the loop `for (i = 1; i <= count_cells; i++)` of the non-multicomponent branch: for every cell the
 pair `(m[i], m1[i])` (factor with the lower, with the higher cell); `prev` is cell `i−1` (none for
-`i = 1`), `dav` the stale local. First the `i < count_cells` block, then the `i > 1` block, as in the code. -/
+`i = 1`), `dav` the local of the code. First the `i < count_cells` block, then the `i > 1` block, as in the code. -/
 def cellLoop (s : Setup) : Option Cell → List Cell → Rat → List (Rat × Rat)
   | _, [], _ => []
   | prev, c :: rest, dav =>
